@@ -81,6 +81,9 @@ class RModel(PlainModel):
         for k in kws:
             if k[0] == 'dstar':
                 st.emit('DSTAR', (f, k[1]), line)
+        # getattr(x, '<name>', <constant>): an optional attribute that only an opt-in feature sets - judged at its default
+        if f == ('lib', 'getattr') and len(args) == 3 and not kws and is_const(args[1]) and (is_const(args[2]) or args[2] in (('tuple', ()), ('list', ()), ('dict', ()))):
+            return [R(st, args[2])]
         if f[0] == 'instancecheck' and len(args) == 1 and not kws and self.engine is not None:
             return self.engine.call(('lib', 'isinstance'), (args[0], f[1]), (), st, node)
         if f[0] == 'attr' and f[2] == '__instancecheck__' and f[1][0] == 'lib' and len(args) == 1 and not kws and self.engine is not None:
